@@ -387,13 +387,27 @@ def _rest(case_id, res, seed, replay_dir, log, run, s, apps, routine, ctrl, clip
         s.push()
         s.add(viol)
         r = str(s.check())
-        model = s.model() if r == "sat" else None
+        models = [s.model()] if r == "sat" else []
+        if r == "sat" and n:
+            # further witnesses that are more likely to replay: the controller's power function is abstracted, so prefer
+            # error values for which the real controller is clipped (tiny / huge first error) or no attempt is rejected
+            prefs = [[g[0], eq_[0] <= z3.RealVal("1e-9")], [g[0], eq_[0] >= z3.RealVal("1e9")], [a >= 1 for a in apps]]
+            for pref in prefs:
+                s.push(); s.add(*pref)
+                if str(s.check()) == "sat":
+                    models.append(s.model())
+                s.pop()
         s.pop()
-        ob = {"id": f"C06/{case_id}/{name}", "queries": 1, "solver_s": round(time.time() - tt, 3), "nontrivial": True}
+        ob = {"id": f"C06/{case_id}/{name}", "queries": 1 + max(0, len(models) - 1), "solver_s": round(time.time() - tt, 3),
+              "nontrivial": True}
         if r == "unsat":
             ob["status"] = "holds"
         elif r == "sat":
-            ok, info = replay_model(case_id, model, T, dt0, eps, safety, fmin, fmax, x0, dom, apps, name)
+            ok, info = None, {}
+            for model in models:
+                ok, info = replay_model(case_id, model, T, dt0, eps, safety, fmin, fmax, x0, dom, apps, name)
+                if ok is False:
+                    break
             ob["counterexample"] = info
             if ok is False:
                 ob["status"] = "violated"
